@@ -30,6 +30,40 @@ def regenerate(ctx):
         return False
 
 
+def regenerate_scalar(ctx):
+    """Run gen/stft_scalar.py on the current source (coq/gen/StftR.v feeds coq/Stft/ScalarTie.v)."""
+    import os
+    import sys
+
+    sys.path.insert(0, os.path.join(C.ROOT, "gen"))
+    import stft_scalar
+
+    try:
+        stft_scalar.main(C.SRC, os.path.join(C.COQ, "gen", "StftR.v"))
+        return True
+    except Exception as e:  # noqa: fail closed
+        ctx.fail("translator gen/stft_scalar.py no longer recognises the energy / log-floor / DFT-size code of compute.py / torch.py: %s" % e,
+                 dict(correspondence="gen/stft_scalar.py -> coq/gen/StftR.v", error=str(e)[:500]), kind="tie", no_input=True)
+        return False
+
+
+def regenerate_si(ctx):
+    """Run gen/si.py on the current source (coq/gen/SiK.v feeds coq/C03/Tie.v)."""
+    import os
+    import sys
+
+    sys.path.insert(0, os.path.join(C.ROOT, "gen"))
+    import si as gen_si
+
+    try:
+        gen_si.main(C.SRC, os.path.join(C.COQ, "gen", "SiK.v"))
+        return True
+    except Exception as e:  # noqa: fail closed
+        ctx.fail("translator gen/si.py no longer recognises ShortIntegrationFrameComputer (compute.py): %s" % e,
+                 dict(correspondence="gen/si.py -> coq/gen/SiK.v", error=str(e)[:500]), kind="tie", no_input=True)
+        return False
+
+
 def make_computer(Lv, Sv, centered, kaldi, record):
     C.ensure_impl_path()
     from pydrobert.speech import compute, filters
